@@ -211,6 +211,14 @@ def handle : List String → String
       if k == "u" then some .unb
       else if k == "i" then (pbv t v).map .incl
       else if k == "e" then (pbv t v).map .excl else none
+    if col == "f" then
+      match pb lk lt lv, pb uk ut uv, intList vals with
+      | some lo, some hi, some vs =>
+        String.ofList (vs.map (fun v => if JsonRange.implMatchF lo hi v then '1' else '0')) ++ "|" ++
+        String.ofList (vs.map (fun v => if JsonRange.specMatchF lo hi v then '1' else '0')) ++ "|" ++
+        (if sup == "f" then "1" else "0")
+      | _, _, _ => "bad-op"
+    else
     match pcol, pb lk lt lv, pb uk ut uv, intList vals with
     | some col, some lo, some hi, some vs =>
       String.ofList (vs.map (fun v => if JsonRange.implMatch col lo hi v then '1' else '0')) ++ "|" ++
